@@ -350,6 +350,10 @@ class Alg:
                     return sp.Integer(0)
                 if p == "T::one":
                     return sp.Integer(1)
+                if p in ("std::cmp::max", "cmp::max", "core::cmp::max", "usize::max", "f64::max") and len(e["args"]) == 2:
+                    return max_f(self.conv(e["args"][0]), self.conv(e["args"][1]))
+                if p in ("std::cmp::min", "cmp::min", "core::cmp::min", "usize::min", "f64::min") and len(e["args"]) == 2:
+                    return min_f(self.conv(e["args"][0]), self.conv(e["args"][1]))
                 if p.split("::")[-1] == "div_floor" and len(e["args"]) == 2:
                     # synchro::div_floor: exact integer floor division (body verified by R-C07-exact)
                     return idiv_f(self.conv(e["args"][0]), self.conv(e["args"][1]))
